@@ -385,7 +385,10 @@ class Verifier(Engine):
                     and (st.frames[-1].func is self.fi):
                 for hint in self.contract.hints[t.id]:
                     if hint[0] == "use":
-                        self.use_lemma(hint[1], hint[2], st)
+                        try:
+                            self.use_lemma(hint[1], hint[2], st)
+                        except Unsupported:
+                            pass      # an argument is not in scope at this assignment: no instance
                         continue
                     label, expr = hint
                     self.oblige(st, self.ev_spec(expr, st), "hint:%s" % label, s, kind="hint", clause=expr)
